@@ -36,7 +36,7 @@ Record variant := { lockfix : bool; reffix : bool }.
 Definition fixed : variant := {| lockfix := true; reffix := true |}.
 Definition v0 : variant := {| lockfix := false; reffix := false |}.
 
-Inductive kind := KWatcher | KAsync | KExplicit.
+Inductive kind := KWatcher | KAsync | KExplicit | KEntries.   (* KEntries: a SyncEntries / SyncOneEntry / SyncHAMTEntries caller *)
 
 Inductive pc :=
 (* watcher *)
@@ -80,6 +80,7 @@ Record st := {
   lastTaken : nat -> nat;         (* ghost: last announcement taken by a goroutine *)
   events : list event;            (* inEvents, newest first *)
   hooks : list (nat * nat * nat); (* block-hook calls (session tid, publisher, ad), newest first *)
+  ehooks : list (nat * nat * nat); (* block-hook calls of entries syncs (session tid, publisher, block), newest first *)
   gtodo : nat -> list nat;        (* ghost: hook calls the running session still owes *)
   goal : nat -> nat;              (* ghost: head up to which ads are reported or owed *)
   panicked : bool;                (* nil dereference in asyncSyncAdChain *)
@@ -91,53 +92,55 @@ Record st := {
 }.
 
 Definition set_hmap (s : st) (v : nat -> option nat) : st :=
-  {| hmap := v; next_hid := next_hid s; hpub := hpub s; pending := pending s; ptaker := ptaker s; amu := amu s; smu := smu s; refs := refs s; sem := sem s; latest := latest s; lsrc := lsrc s; pubhead := pubhead s; lastRecv := lastRecv s; lastTaken := lastTaken s; events := events s; hooks := hooks s; gtodo := gtodo s; goal := goal s; panicked := panicked s; ordered := ordered s; regress := regress s; nexp := nexp s; next_tid := next_tid s; threads := threads s |}.
+  {| hmap := v; next_hid := next_hid s; hpub := hpub s; pending := pending s; ptaker := ptaker s; amu := amu s; smu := smu s; refs := refs s; sem := sem s; latest := latest s; lsrc := lsrc s; pubhead := pubhead s; lastRecv := lastRecv s; lastTaken := lastTaken s; events := events s; hooks := hooks s; ehooks := ehooks s; gtodo := gtodo s; goal := goal s; panicked := panicked s; ordered := ordered s; regress := regress s; nexp := nexp s; next_tid := next_tid s; threads := threads s |}.
 Definition set_next_hid (s : st) (v : nat) : st :=
-  {| hmap := hmap s; next_hid := v; hpub := hpub s; pending := pending s; ptaker := ptaker s; amu := amu s; smu := smu s; refs := refs s; sem := sem s; latest := latest s; lsrc := lsrc s; pubhead := pubhead s; lastRecv := lastRecv s; lastTaken := lastTaken s; events := events s; hooks := hooks s; gtodo := gtodo s; goal := goal s; panicked := panicked s; ordered := ordered s; regress := regress s; nexp := nexp s; next_tid := next_tid s; threads := threads s |}.
+  {| hmap := hmap s; next_hid := v; hpub := hpub s; pending := pending s; ptaker := ptaker s; amu := amu s; smu := smu s; refs := refs s; sem := sem s; latest := latest s; lsrc := lsrc s; pubhead := pubhead s; lastRecv := lastRecv s; lastTaken := lastTaken s; events := events s; hooks := hooks s; ehooks := ehooks s; gtodo := gtodo s; goal := goal s; panicked := panicked s; ordered := ordered s; regress := regress s; nexp := nexp s; next_tid := next_tid s; threads := threads s |}.
 Definition set_hpub (s : st) (v : nat -> nat) : st :=
-  {| hmap := hmap s; next_hid := next_hid s; hpub := v; pending := pending s; ptaker := ptaker s; amu := amu s; smu := smu s; refs := refs s; sem := sem s; latest := latest s; lsrc := lsrc s; pubhead := pubhead s; lastRecv := lastRecv s; lastTaken := lastTaken s; events := events s; hooks := hooks s; gtodo := gtodo s; goal := goal s; panicked := panicked s; ordered := ordered s; regress := regress s; nexp := nexp s; next_tid := next_tid s; threads := threads s |}.
+  {| hmap := hmap s; next_hid := next_hid s; hpub := v; pending := pending s; ptaker := ptaker s; amu := amu s; smu := smu s; refs := refs s; sem := sem s; latest := latest s; lsrc := lsrc s; pubhead := pubhead s; lastRecv := lastRecv s; lastTaken := lastTaken s; events := events s; hooks := hooks s; ehooks := ehooks s; gtodo := gtodo s; goal := goal s; panicked := panicked s; ordered := ordered s; regress := regress s; nexp := nexp s; next_tid := next_tid s; threads := threads s |}.
 Definition set_pending (s : st) (v : nat -> option nat) : st :=
-  {| hmap := hmap s; next_hid := next_hid s; hpub := hpub s; pending := v; ptaker := ptaker s; amu := amu s; smu := smu s; refs := refs s; sem := sem s; latest := latest s; lsrc := lsrc s; pubhead := pubhead s; lastRecv := lastRecv s; lastTaken := lastTaken s; events := events s; hooks := hooks s; gtodo := gtodo s; goal := goal s; panicked := panicked s; ordered := ordered s; regress := regress s; nexp := nexp s; next_tid := next_tid s; threads := threads s |}.
+  {| hmap := hmap s; next_hid := next_hid s; hpub := hpub s; pending := v; ptaker := ptaker s; amu := amu s; smu := smu s; refs := refs s; sem := sem s; latest := latest s; lsrc := lsrc s; pubhead := pubhead s; lastRecv := lastRecv s; lastTaken := lastTaken s; events := events s; hooks := hooks s; ehooks := ehooks s; gtodo := gtodo s; goal := goal s; panicked := panicked s; ordered := ordered s; regress := regress s; nexp := nexp s; next_tid := next_tid s; threads := threads s |}.
 Definition set_ptaker (s : st) (v : nat -> option nat) : st :=
-  {| hmap := hmap s; next_hid := next_hid s; hpub := hpub s; pending := pending s; ptaker := v; amu := amu s; smu := smu s; refs := refs s; sem := sem s; latest := latest s; lsrc := lsrc s; pubhead := pubhead s; lastRecv := lastRecv s; lastTaken := lastTaken s; events := events s; hooks := hooks s; gtodo := gtodo s; goal := goal s; panicked := panicked s; ordered := ordered s; regress := regress s; nexp := nexp s; next_tid := next_tid s; threads := threads s |}.
+  {| hmap := hmap s; next_hid := next_hid s; hpub := hpub s; pending := pending s; ptaker := v; amu := amu s; smu := smu s; refs := refs s; sem := sem s; latest := latest s; lsrc := lsrc s; pubhead := pubhead s; lastRecv := lastRecv s; lastTaken := lastTaken s; events := events s; hooks := hooks s; ehooks := ehooks s; gtodo := gtodo s; goal := goal s; panicked := panicked s; ordered := ordered s; regress := regress s; nexp := nexp s; next_tid := next_tid s; threads := threads s |}.
 Definition set_amu (s : st) (v : nat -> option nat) : st :=
-  {| hmap := hmap s; next_hid := next_hid s; hpub := hpub s; pending := pending s; ptaker := ptaker s; amu := v; smu := smu s; refs := refs s; sem := sem s; latest := latest s; lsrc := lsrc s; pubhead := pubhead s; lastRecv := lastRecv s; lastTaken := lastTaken s; events := events s; hooks := hooks s; gtodo := gtodo s; goal := goal s; panicked := panicked s; ordered := ordered s; regress := regress s; nexp := nexp s; next_tid := next_tid s; threads := threads s |}.
+  {| hmap := hmap s; next_hid := next_hid s; hpub := hpub s; pending := pending s; ptaker := ptaker s; amu := v; smu := smu s; refs := refs s; sem := sem s; latest := latest s; lsrc := lsrc s; pubhead := pubhead s; lastRecv := lastRecv s; lastTaken := lastTaken s; events := events s; hooks := hooks s; ehooks := ehooks s; gtodo := gtodo s; goal := goal s; panicked := panicked s; ordered := ordered s; regress := regress s; nexp := nexp s; next_tid := next_tid s; threads := threads s |}.
 Definition set_smu (s : st) (v : nat -> option nat) : st :=
-  {| hmap := hmap s; next_hid := next_hid s; hpub := hpub s; pending := pending s; ptaker := ptaker s; amu := amu s; smu := v; refs := refs s; sem := sem s; latest := latest s; lsrc := lsrc s; pubhead := pubhead s; lastRecv := lastRecv s; lastTaken := lastTaken s; events := events s; hooks := hooks s; gtodo := gtodo s; goal := goal s; panicked := panicked s; ordered := ordered s; regress := regress s; nexp := nexp s; next_tid := next_tid s; threads := threads s |}.
+  {| hmap := hmap s; next_hid := next_hid s; hpub := hpub s; pending := pending s; ptaker := ptaker s; amu := amu s; smu := v; refs := refs s; sem := sem s; latest := latest s; lsrc := lsrc s; pubhead := pubhead s; lastRecv := lastRecv s; lastTaken := lastTaken s; events := events s; hooks := hooks s; ehooks := ehooks s; gtodo := gtodo s; goal := goal s; panicked := panicked s; ordered := ordered s; regress := regress s; nexp := nexp s; next_tid := next_tid s; threads := threads s |}.
 Definition set_refs (s : st) (v : nat -> list nat) : st :=
-  {| hmap := hmap s; next_hid := next_hid s; hpub := hpub s; pending := pending s; ptaker := ptaker s; amu := amu s; smu := smu s; refs := v; sem := sem s; latest := latest s; lsrc := lsrc s; pubhead := pubhead s; lastRecv := lastRecv s; lastTaken := lastTaken s; events := events s; hooks := hooks s; gtodo := gtodo s; goal := goal s; panicked := panicked s; ordered := ordered s; regress := regress s; nexp := nexp s; next_tid := next_tid s; threads := threads s |}.
+  {| hmap := hmap s; next_hid := next_hid s; hpub := hpub s; pending := pending s; ptaker := ptaker s; amu := amu s; smu := smu s; refs := v; sem := sem s; latest := latest s; lsrc := lsrc s; pubhead := pubhead s; lastRecv := lastRecv s; lastTaken := lastTaken s; events := events s; hooks := hooks s; ehooks := ehooks s; gtodo := gtodo s; goal := goal s; panicked := panicked s; ordered := ordered s; regress := regress s; nexp := nexp s; next_tid := next_tid s; threads := threads s |}.
 Definition set_sem (s : st) (v : list nat) : st :=
-  {| hmap := hmap s; next_hid := next_hid s; hpub := hpub s; pending := pending s; ptaker := ptaker s; amu := amu s; smu := smu s; refs := refs s; sem := v; latest := latest s; lsrc := lsrc s; pubhead := pubhead s; lastRecv := lastRecv s; lastTaken := lastTaken s; events := events s; hooks := hooks s; gtodo := gtodo s; goal := goal s; panicked := panicked s; ordered := ordered s; regress := regress s; nexp := nexp s; next_tid := next_tid s; threads := threads s |}.
+  {| hmap := hmap s; next_hid := next_hid s; hpub := hpub s; pending := pending s; ptaker := ptaker s; amu := amu s; smu := smu s; refs := refs s; sem := v; latest := latest s; lsrc := lsrc s; pubhead := pubhead s; lastRecv := lastRecv s; lastTaken := lastTaken s; events := events s; hooks := hooks s; ehooks := ehooks s; gtodo := gtodo s; goal := goal s; panicked := panicked s; ordered := ordered s; regress := regress s; nexp := nexp s; next_tid := next_tid s; threads := threads s |}.
 Definition set_latest (s : st) (v : nat -> nat) : st :=
-  {| hmap := hmap s; next_hid := next_hid s; hpub := hpub s; pending := pending s; ptaker := ptaker s; amu := amu s; smu := smu s; refs := refs s; sem := sem s; latest := v; lsrc := lsrc s; pubhead := pubhead s; lastRecv := lastRecv s; lastTaken := lastTaken s; events := events s; hooks := hooks s; gtodo := gtodo s; goal := goal s; panicked := panicked s; ordered := ordered s; regress := regress s; nexp := nexp s; next_tid := next_tid s; threads := threads s |}.
+  {| hmap := hmap s; next_hid := next_hid s; hpub := hpub s; pending := pending s; ptaker := ptaker s; amu := amu s; smu := smu s; refs := refs s; sem := sem s; latest := v; lsrc := lsrc s; pubhead := pubhead s; lastRecv := lastRecv s; lastTaken := lastTaken s; events := events s; hooks := hooks s; ehooks := ehooks s; gtodo := gtodo s; goal := goal s; panicked := panicked s; ordered := ordered s; regress := regress s; nexp := nexp s; next_tid := next_tid s; threads := threads s |}.
 Definition set_lsrc (s : st) (v : nat -> bool) : st :=
-  {| hmap := hmap s; next_hid := next_hid s; hpub := hpub s; pending := pending s; ptaker := ptaker s; amu := amu s; smu := smu s; refs := refs s; sem := sem s; latest := latest s; lsrc := v; pubhead := pubhead s; lastRecv := lastRecv s; lastTaken := lastTaken s; events := events s; hooks := hooks s; gtodo := gtodo s; goal := goal s; panicked := panicked s; ordered := ordered s; regress := regress s; nexp := nexp s; next_tid := next_tid s; threads := threads s |}.
+  {| hmap := hmap s; next_hid := next_hid s; hpub := hpub s; pending := pending s; ptaker := ptaker s; amu := amu s; smu := smu s; refs := refs s; sem := sem s; latest := latest s; lsrc := v; pubhead := pubhead s; lastRecv := lastRecv s; lastTaken := lastTaken s; events := events s; hooks := hooks s; ehooks := ehooks s; gtodo := gtodo s; goal := goal s; panicked := panicked s; ordered := ordered s; regress := regress s; nexp := nexp s; next_tid := next_tid s; threads := threads s |}.
 Definition set_pubhead (s : st) (v : nat -> nat) : st :=
-  {| hmap := hmap s; next_hid := next_hid s; hpub := hpub s; pending := pending s; ptaker := ptaker s; amu := amu s; smu := smu s; refs := refs s; sem := sem s; latest := latest s; lsrc := lsrc s; pubhead := v; lastRecv := lastRecv s; lastTaken := lastTaken s; events := events s; hooks := hooks s; gtodo := gtodo s; goal := goal s; panicked := panicked s; ordered := ordered s; regress := regress s; nexp := nexp s; next_tid := next_tid s; threads := threads s |}.
+  {| hmap := hmap s; next_hid := next_hid s; hpub := hpub s; pending := pending s; ptaker := ptaker s; amu := amu s; smu := smu s; refs := refs s; sem := sem s; latest := latest s; lsrc := lsrc s; pubhead := v; lastRecv := lastRecv s; lastTaken := lastTaken s; events := events s; hooks := hooks s; ehooks := ehooks s; gtodo := gtodo s; goal := goal s; panicked := panicked s; ordered := ordered s; regress := regress s; nexp := nexp s; next_tid := next_tid s; threads := threads s |}.
 Definition set_lastRecv (s : st) (v : nat -> nat) : st :=
-  {| hmap := hmap s; next_hid := next_hid s; hpub := hpub s; pending := pending s; ptaker := ptaker s; amu := amu s; smu := smu s; refs := refs s; sem := sem s; latest := latest s; lsrc := lsrc s; pubhead := pubhead s; lastRecv := v; lastTaken := lastTaken s; events := events s; hooks := hooks s; gtodo := gtodo s; goal := goal s; panicked := panicked s; ordered := ordered s; regress := regress s; nexp := nexp s; next_tid := next_tid s; threads := threads s |}.
+  {| hmap := hmap s; next_hid := next_hid s; hpub := hpub s; pending := pending s; ptaker := ptaker s; amu := amu s; smu := smu s; refs := refs s; sem := sem s; latest := latest s; lsrc := lsrc s; pubhead := pubhead s; lastRecv := v; lastTaken := lastTaken s; events := events s; hooks := hooks s; ehooks := ehooks s; gtodo := gtodo s; goal := goal s; panicked := panicked s; ordered := ordered s; regress := regress s; nexp := nexp s; next_tid := next_tid s; threads := threads s |}.
 Definition set_lastTaken (s : st) (v : nat -> nat) : st :=
-  {| hmap := hmap s; next_hid := next_hid s; hpub := hpub s; pending := pending s; ptaker := ptaker s; amu := amu s; smu := smu s; refs := refs s; sem := sem s; latest := latest s; lsrc := lsrc s; pubhead := pubhead s; lastRecv := lastRecv s; lastTaken := v; events := events s; hooks := hooks s; gtodo := gtodo s; goal := goal s; panicked := panicked s; ordered := ordered s; regress := regress s; nexp := nexp s; next_tid := next_tid s; threads := threads s |}.
+  {| hmap := hmap s; next_hid := next_hid s; hpub := hpub s; pending := pending s; ptaker := ptaker s; amu := amu s; smu := smu s; refs := refs s; sem := sem s; latest := latest s; lsrc := lsrc s; pubhead := pubhead s; lastRecv := lastRecv s; lastTaken := v; events := events s; hooks := hooks s; ehooks := ehooks s; gtodo := gtodo s; goal := goal s; panicked := panicked s; ordered := ordered s; regress := regress s; nexp := nexp s; next_tid := next_tid s; threads := threads s |}.
 Definition set_events (s : st) (v : list event) : st :=
-  {| hmap := hmap s; next_hid := next_hid s; hpub := hpub s; pending := pending s; ptaker := ptaker s; amu := amu s; smu := smu s; refs := refs s; sem := sem s; latest := latest s; lsrc := lsrc s; pubhead := pubhead s; lastRecv := lastRecv s; lastTaken := lastTaken s; events := v; hooks := hooks s; gtodo := gtodo s; goal := goal s; panicked := panicked s; ordered := ordered s; regress := regress s; nexp := nexp s; next_tid := next_tid s; threads := threads s |}.
+  {| hmap := hmap s; next_hid := next_hid s; hpub := hpub s; pending := pending s; ptaker := ptaker s; amu := amu s; smu := smu s; refs := refs s; sem := sem s; latest := latest s; lsrc := lsrc s; pubhead := pubhead s; lastRecv := lastRecv s; lastTaken := lastTaken s; events := v; hooks := hooks s; ehooks := ehooks s; gtodo := gtodo s; goal := goal s; panicked := panicked s; ordered := ordered s; regress := regress s; nexp := nexp s; next_tid := next_tid s; threads := threads s |}.
 Definition set_hooks (s : st) (v : list (nat * nat * nat)) : st :=
-  {| hmap := hmap s; next_hid := next_hid s; hpub := hpub s; pending := pending s; ptaker := ptaker s; amu := amu s; smu := smu s; refs := refs s; sem := sem s; latest := latest s; lsrc := lsrc s; pubhead := pubhead s; lastRecv := lastRecv s; lastTaken := lastTaken s; events := events s; hooks := v; gtodo := gtodo s; goal := goal s; panicked := panicked s; ordered := ordered s; regress := regress s; nexp := nexp s; next_tid := next_tid s; threads := threads s |}.
+  {| hmap := hmap s; next_hid := next_hid s; hpub := hpub s; pending := pending s; ptaker := ptaker s; amu := amu s; smu := smu s; refs := refs s; sem := sem s; latest := latest s; lsrc := lsrc s; pubhead := pubhead s; lastRecv := lastRecv s; lastTaken := lastTaken s; events := events s; hooks := v; ehooks := ehooks s; gtodo := gtodo s; goal := goal s; panicked := panicked s; ordered := ordered s; regress := regress s; nexp := nexp s; next_tid := next_tid s; threads := threads s |}.
+Definition set_ehooks (s : st) (v : list (nat * nat * nat)) : st :=
+  {| hmap := hmap s; next_hid := next_hid s; hpub := hpub s; pending := pending s; ptaker := ptaker s; amu := amu s; smu := smu s; refs := refs s; sem := sem s; latest := latest s; lsrc := lsrc s; pubhead := pubhead s; lastRecv := lastRecv s; lastTaken := lastTaken s; events := events s; hooks := hooks s; ehooks := v; gtodo := gtodo s; goal := goal s; panicked := panicked s; ordered := ordered s; regress := regress s; nexp := nexp s; next_tid := next_tid s; threads := threads s |}.
 Definition set_gtodo (s : st) (v : nat -> list nat) : st :=
-  {| hmap := hmap s; next_hid := next_hid s; hpub := hpub s; pending := pending s; ptaker := ptaker s; amu := amu s; smu := smu s; refs := refs s; sem := sem s; latest := latest s; lsrc := lsrc s; pubhead := pubhead s; lastRecv := lastRecv s; lastTaken := lastTaken s; events := events s; hooks := hooks s; gtodo := v; goal := goal s; panicked := panicked s; ordered := ordered s; regress := regress s; nexp := nexp s; next_tid := next_tid s; threads := threads s |}.
+  {| hmap := hmap s; next_hid := next_hid s; hpub := hpub s; pending := pending s; ptaker := ptaker s; amu := amu s; smu := smu s; refs := refs s; sem := sem s; latest := latest s; lsrc := lsrc s; pubhead := pubhead s; lastRecv := lastRecv s; lastTaken := lastTaken s; events := events s; hooks := hooks s; ehooks := ehooks s; gtodo := v; goal := goal s; panicked := panicked s; ordered := ordered s; regress := regress s; nexp := nexp s; next_tid := next_tid s; threads := threads s |}.
 Definition set_goal (s : st) (v : nat -> nat) : st :=
-  {| hmap := hmap s; next_hid := next_hid s; hpub := hpub s; pending := pending s; ptaker := ptaker s; amu := amu s; smu := smu s; refs := refs s; sem := sem s; latest := latest s; lsrc := lsrc s; pubhead := pubhead s; lastRecv := lastRecv s; lastTaken := lastTaken s; events := events s; hooks := hooks s; gtodo := gtodo s; goal := v; panicked := panicked s; ordered := ordered s; regress := regress s; nexp := nexp s; next_tid := next_tid s; threads := threads s |}.
+  {| hmap := hmap s; next_hid := next_hid s; hpub := hpub s; pending := pending s; ptaker := ptaker s; amu := amu s; smu := smu s; refs := refs s; sem := sem s; latest := latest s; lsrc := lsrc s; pubhead := pubhead s; lastRecv := lastRecv s; lastTaken := lastTaken s; events := events s; hooks := hooks s; ehooks := ehooks s; gtodo := gtodo s; goal := v; panicked := panicked s; ordered := ordered s; regress := regress s; nexp := nexp s; next_tid := next_tid s; threads := threads s |}.
 Definition set_panicked (s : st) (v : bool) : st :=
-  {| hmap := hmap s; next_hid := next_hid s; hpub := hpub s; pending := pending s; ptaker := ptaker s; amu := amu s; smu := smu s; refs := refs s; sem := sem s; latest := latest s; lsrc := lsrc s; pubhead := pubhead s; lastRecv := lastRecv s; lastTaken := lastTaken s; events := events s; hooks := hooks s; gtodo := gtodo s; goal := goal s; panicked := v; ordered := ordered s; regress := regress s; nexp := nexp s; next_tid := next_tid s; threads := threads s |}.
+  {| hmap := hmap s; next_hid := next_hid s; hpub := hpub s; pending := pending s; ptaker := ptaker s; amu := amu s; smu := smu s; refs := refs s; sem := sem s; latest := latest s; lsrc := lsrc s; pubhead := pubhead s; lastRecv := lastRecv s; lastTaken := lastTaken s; events := events s; hooks := hooks s; ehooks := ehooks s; gtodo := gtodo s; goal := goal s; panicked := v; ordered := ordered s; regress := regress s; nexp := nexp s; next_tid := next_tid s; threads := threads s |}.
 Definition set_ordered (s : st) (v : bool) : st :=
-  {| hmap := hmap s; next_hid := next_hid s; hpub := hpub s; pending := pending s; ptaker := ptaker s; amu := amu s; smu := smu s; refs := refs s; sem := sem s; latest := latest s; lsrc := lsrc s; pubhead := pubhead s; lastRecv := lastRecv s; lastTaken := lastTaken s; events := events s; hooks := hooks s; gtodo := gtodo s; goal := goal s; panicked := panicked s; ordered := v; regress := regress s; nexp := nexp s; next_tid := next_tid s; threads := threads s |}.
+  {| hmap := hmap s; next_hid := next_hid s; hpub := hpub s; pending := pending s; ptaker := ptaker s; amu := amu s; smu := smu s; refs := refs s; sem := sem s; latest := latest s; lsrc := lsrc s; pubhead := pubhead s; lastRecv := lastRecv s; lastTaken := lastTaken s; events := events s; hooks := hooks s; ehooks := ehooks s; gtodo := gtodo s; goal := goal s; panicked := panicked s; ordered := v; regress := regress s; nexp := nexp s; next_tid := next_tid s; threads := threads s |}.
 Definition set_regress (s : st) (v : bool) : st :=
-  {| hmap := hmap s; next_hid := next_hid s; hpub := hpub s; pending := pending s; ptaker := ptaker s; amu := amu s; smu := smu s; refs := refs s; sem := sem s; latest := latest s; lsrc := lsrc s; pubhead := pubhead s; lastRecv := lastRecv s; lastTaken := lastTaken s; events := events s; hooks := hooks s; gtodo := gtodo s; goal := goal s; panicked := panicked s; ordered := ordered s; regress := v; nexp := nexp s; next_tid := next_tid s; threads := threads s |}.
+  {| hmap := hmap s; next_hid := next_hid s; hpub := hpub s; pending := pending s; ptaker := ptaker s; amu := amu s; smu := smu s; refs := refs s; sem := sem s; latest := latest s; lsrc := lsrc s; pubhead := pubhead s; lastRecv := lastRecv s; lastTaken := lastTaken s; events := events s; hooks := hooks s; ehooks := ehooks s; gtodo := gtodo s; goal := goal s; panicked := panicked s; ordered := ordered s; regress := v; nexp := nexp s; next_tid := next_tid s; threads := threads s |}.
 Definition set_nexp (s : st) (v : bool) : st :=
-  {| hmap := hmap s; next_hid := next_hid s; hpub := hpub s; pending := pending s; ptaker := ptaker s; amu := amu s; smu := smu s; refs := refs s; sem := sem s; latest := latest s; lsrc := lsrc s; pubhead := pubhead s; lastRecv := lastRecv s; lastTaken := lastTaken s; events := events s; hooks := hooks s; gtodo := gtodo s; goal := goal s; panicked := panicked s; ordered := ordered s; regress := regress s; nexp := v; next_tid := next_tid s; threads := threads s |}.
+  {| hmap := hmap s; next_hid := next_hid s; hpub := hpub s; pending := pending s; ptaker := ptaker s; amu := amu s; smu := smu s; refs := refs s; sem := sem s; latest := latest s; lsrc := lsrc s; pubhead := pubhead s; lastRecv := lastRecv s; lastTaken := lastTaken s; events := events s; hooks := hooks s; ehooks := ehooks s; gtodo := gtodo s; goal := goal s; panicked := panicked s; ordered := ordered s; regress := regress s; nexp := v; next_tid := next_tid s; threads := threads s |}.
 Definition set_next_tid (s : st) (v : nat) : st :=
-  {| hmap := hmap s; next_hid := next_hid s; hpub := hpub s; pending := pending s; ptaker := ptaker s; amu := amu s; smu := smu s; refs := refs s; sem := sem s; latest := latest s; lsrc := lsrc s; pubhead := pubhead s; lastRecv := lastRecv s; lastTaken := lastTaken s; events := events s; hooks := hooks s; gtodo := gtodo s; goal := goal s; panicked := panicked s; ordered := ordered s; regress := regress s; nexp := nexp s; next_tid := v; threads := threads s |}.
+  {| hmap := hmap s; next_hid := next_hid s; hpub := hpub s; pending := pending s; ptaker := ptaker s; amu := amu s; smu := smu s; refs := refs s; sem := sem s; latest := latest s; lsrc := lsrc s; pubhead := pubhead s; lastRecv := lastRecv s; lastTaken := lastTaken s; events := events s; hooks := hooks s; ehooks := ehooks s; gtodo := gtodo s; goal := goal s; panicked := panicked s; ordered := ordered s; regress := regress s; nexp := nexp s; next_tid := v; threads := threads s |}.
 Definition set_threads (s : st) (v : nat -> option thread) : st :=
-  {| hmap := hmap s; next_hid := next_hid s; hpub := hpub s; pending := pending s; ptaker := ptaker s; amu := amu s; smu := smu s; refs := refs s; sem := sem s; latest := latest s; lsrc := lsrc s; pubhead := pubhead s; lastRecv := lastRecv s; lastTaken := lastTaken s; events := events s; hooks := hooks s; gtodo := gtodo s; goal := goal s; panicked := panicked s; ordered := ordered s; regress := regress s; nexp := nexp s; next_tid := next_tid s; threads := v |}.
+  {| hmap := hmap s; next_hid := next_hid s; hpub := hpub s; pending := pending s; ptaker := ptaker s; amu := amu s; smu := smu s; refs := refs s; sem := sem s; latest := latest s; lsrc := lsrc s; pubhead := pubhead s; lastRecv := lastRecv s; lastTaken := lastTaken s; events := events s; hooks := hooks s; ehooks := ehooks s; gtodo := gtodo s; goal := goal s; panicked := panicked s; ordered := ordered s; regress := regress s; nexp := nexp s; next_tid := next_tid s; threads := v |}.
 
 (* named yield points of dagsync/subscriber.go (build tag verif) and the harness's own
    block hook / end-of-thread observations *)
@@ -150,6 +153,7 @@ Inductive label :=
 | Publish (p : nat)                 (* the publisher appends an advertisement *)
 | Recv (p c : nat)                  (* receiver.Next returns an announcement of head c *)
 | Spawn (p : nat)                   (* a caller enters SyncAdChain for publisher p *)
+| SpawnE (p n : nat)                (* a caller enters SyncEntries for an entries chain of n blocks of publisher p *)
 | Remove (p : nat) (removed : bool) (* RemoveHandler(p) / the idle cleaner, and what it returned *)
 | AnnRejected (p c : nat)           (* an announcement of head c the receiver's allow filter rejected:
                                        it never reaches receiver.Next and leaves no trace *)
@@ -180,6 +184,7 @@ Definition put (s : st) (t : nat) (th : thread) : st := set_threads s (updf (thr
 
 Definition is_nil {A} (l : list A) : bool := match l with [] => true | _ => false end.
 Definition is_explicit (k : kind) : bool := match k with KExplicit => true | _ => false end.
+Definition is_entries (k : kind) : bool := match k with KEntries => true | _ => false end.
 Definition remove_tid (t : nat) (l : list nat) : list nat := remove Nat.eq_dec t l.
 
 (* the advertisements a walk from `head` reports when given stop `stop`, in the order
@@ -265,14 +270,23 @@ Section Step.
     (* ---- explicit SyncAdChain *)
     | EGet =>
       let '(s1, h1) := get_handler s t p in
-      Some (put s1 t (set_pc (set_h th h1) (if lockfix v then PLockS else PRead)), None)
+      (* syncEntries reads no stop CID: it goes for the sync lock in both variants *)
+      Some (put s1 t (set_pc (set_h th h1)
+              (match t_kind th with
+               | KEntries => PLockS
+               | _ => if lockfix v then PLockS else PRead
+               end)), None)
     (* ---- common *)
     | PLockS =>
       match smu s h with
       | None =>
         let s1 := set_smu s (updf (smu s) h (Some t)) in
-        if lockfix v then Some (put s1 t (set_pc th PRead), None)
-        else Some (put s1 t (set_pc th PHandle), Some YHandleLocked)
+        match t_kind th with
+        | KEntries => Some (put s1 t (set_pc th PHandle), Some YHandleLocked)
+        | _ =>
+          if lockfix v then Some (put s1 t (set_pc th PRead), None)
+          else Some (put s1 t (set_pc th PHandle), Some YHandleLocked)
+        end
       | Some _ => None
       end
     | PRead =>
@@ -301,18 +315,29 @@ Section Step.
              end
     | PHandle =>
       if ok then
-        let w := walk (t_stop th) (t_msg th) in
-        let s1 := set_gtodo s (updf (gtodo s) p w) in
-        let s2 := set_goal s1 (updf (goal s1) p (t_msg th)) in
-        Some (put s2 t (set_pc (set_todo (set_ok th true) w) PReport), None)
+        match t_kind th with
+        | KEntries =>
+          (* the entries chain of t_msg blocks, numbered in reverse traversal order *)
+          Some (put s t (set_pc (set_todo (set_ok th true) (desc (t_msg th) (t_msg th))) PReport), None)
+        | _ =>
+          let w := walk (t_stop th) (t_msg th) in
+          let s1 := set_gtodo s (updf (gtodo s) p w) in
+          let s2 := set_goal s1 (updf (goal s1) p (t_msg th)) in
+          Some (put s2 t (set_pc (set_todo (set_ok th true) w) PReport), None)
+        end
       else
         Some (put s t (set_pc (set_ok th false) PUnlocking), Some YHandleUnlocking)
     | PReport =>
       match t_todo th with
       | a :: r =>
-        let s1 := set_hooks s ((t, p, a) :: hooks s) in
-        let s2 := set_gtodo s1 (updf (gtodo s1) p r) in
-        Some (put s2 t (set_todo th r), Some (YHook a))
+        match t_kind th with
+        | KEntries =>
+          Some (put (set_ehooks s ((t, p, a) :: ehooks s)) t (set_todo th r), Some (YHook a))
+        | _ =>
+          let s1 := set_hooks s ((t, p, a) :: hooks s) in
+          let s2 := set_gtodo s1 (updf (gtodo s1) p r) in
+          Some (put s2 t (set_todo th r), Some (YHook a))
+        end
       | [] => Some (put s t (set_pc th PUnlocking), Some YHandleUnlocking)
       end
     | PUnlocking =>
@@ -321,6 +346,9 @@ Section Step.
       | KExplicit =>
         if t_ok th then Some (put s1 t (set_pc th PHandled), Some YSyncHandled)
         else Some (put s1 t (set_pc th (exit_pc KExplicit)), None)
+      | KEntries =>
+        (* syncEntries returns: no latest sync, no event *)
+        Some (put s1 t (set_pc th (exit_pc KEntries)), None)
       | _ => Some (put s1 t (set_pc th PHandled), Some YAsyncHandled)
       end
     | PHandled =>
@@ -365,6 +393,14 @@ Section Step.
       let t := next_tid s in
       let s1 := set_nexp (set_next_tid s (S t)) true in
       Some (put s1 t (mk_thread KExplicit EGet p 0 0 0 false []), None)
+    | SpawnE p n =>
+      match n with
+      | O => None
+      | S _ =>
+        let t := next_tid s in
+        let s1 := set_next_tid s (S t) in
+        Some (put s1 t (mk_thread KEntries EGet p 0 n 0 false []), None)
+      end
     | Remove p removed =>
       match hmap s p with
       | None => if removed then None else Some (s, None)
@@ -392,7 +428,7 @@ Definition init : st :=
      pending := fun _ => None; ptaker := fun _ => None;
      amu := fun _ => None; smu := fun _ => None; refs := fun _ => [];
      sem := []; latest := fun _ => 0; lsrc := fun _ => false; pubhead := fun _ => 0;
-     lastRecv := fun _ => 0; lastTaken := fun _ => 0; events := []; hooks := [];
+     lastRecv := fun _ => 0; lastTaken := fun _ => 0; events := []; hooks := []; ehooks := [];
      gtodo := fun _ => []; goal := fun _ => 0;
      panicked := false; ordered := true; regress := false; nexp := false;
      next_tid := 1;
@@ -480,7 +516,8 @@ Fixpoint run_obs (v : variant) (cap : nat) (s : st) (tr : list (label * option y
 Record observed := {
   o_npub : nat;
   o_latest : list nat;                 (* GetLatestSync per publisher 0..npub-1 *)
-  o_hooks : list (nat * nat * nat);    (* block-hook calls, oldest first *)
+  o_hooks : list (nat * nat * nat);    (* block-hook calls of ad-chain syncs, oldest first *)
+  o_ehooks : list (nat * nat * nat);   (* block-hook calls of entries syncs, oldest first *)
   o_events : list (nat * nat * bool);  (* SyncFinished events, oldest first *)
   o_quiescent : bool                   (* the run ended with nothing left to do *)
 }.
@@ -553,9 +590,9 @@ Record tcase := {
 }.
 
 Definition mkcase (lf rf : bool) (cap : nat) (tr : list (label * option ypoint))
-    (npub : nat) (lat : list nat) (hk : list (nat * nat * nat)) (ev : list (nat * nat * bool)) (q : bool) : tcase :=
+    (npub : nat) (lat : list nat) (hk ehk : list (nat * nat * nat)) (ev : list (nat * nat * bool)) (q : bool) : tcase :=
   {| c_variant := {| lockfix := lf; reffix := rf |}; c_cap := cap; c_trace := tr;
-     c_obs := {| o_npub := npub; o_latest := lat; o_hooks := hk; o_events := ev; o_quiescent := q |} |}.
+     c_obs := {| o_npub := npub; o_latest := lat; o_hooks := hk; o_ehooks := ehk; o_events := ev; o_quiescent := q |} |}.
 
 (* 0 = accepted; otherwise a code saying what differs (printed by the harness on replay) *)
 Definition trace_verdict (c : tcase) : nat :=
@@ -566,6 +603,7 @@ Definition trace_verdict (c : tcase) : nat :=
     let o := c_obs c in
     if negb (list_eqb Nat.eqb (map (latest s) (seq 0 (o_npub o))) (o_latest o)) then 1
     else if negb (list_eqb triple_eqb (rev (hooks s)) (o_hooks o)) then 2
+    else if negb (list_eqb triple_eqb (rev (ehooks s)) (o_ehooks o)) then 7
     else if negb (evs_eqb (rev (events s)) (o_events o)) then 3
     else if negb (Bool.eqb (all_idle s) (o_quiescent o)) then 4
     else if lockfix (c_variant c) && reffix (c_variant c) then
@@ -680,6 +718,25 @@ Definition expected_sendSyncFinishedEvent : skel :=
    SSend "h.subscriber.inEvents";                     (* PSend *)
    SCall "verifYield"].                               (* event:sent *)
 
+Definition expected_syncEntries : skel :=
+  [SIf "entCid == cid.Undef" [SReturn] [];
+   SLock "s.expSyncMutex";
+   SIf "s.expSyncClosed" [SUnlock "s.expSyncMutex"; SReturn] [];
+   SWgAdd "s.expSyncWG";
+   SUnlock "s.expSyncMutex";
+   SDefer [SWgDone "s.expSyncWG"];
+   SCall "removeIDFromAddrs";
+   SIf "err != nil" [SReturn] [];
+   SCall "getOrCreateHandler";                        (* EGet *)
+   SDefer [SCall "releaseHandler"];                   (* PRelH *)
+   SCall "makeSyncer";
+   SIf "err != nil" [SReturn] [];
+   SLock "hnd.syncMutex";                             (* PLockS: the SAME lock as the ad-chain syncs *)
+   SCall "handle";                                    (* PHandle, PReport, PUnlocking *)
+   SUnlock "hnd.syncMutex";                           (* PUnlockS *)
+   SIf "err != nil" [SReturn] [];
+   SReturn].
+
 Definition expected_getOrCreateHandler : skel :=
   [SLock "s.handlersMutex"; SDeferUnlock "s.handlersMutex"; SReturn].
 
@@ -700,6 +757,7 @@ Definition expected : list (string * skel) :=
    ("handler.asyncSyncFailed", expected_asyncSyncFailed);
    ("handler.handle", expected_handle);
    ("Subscriber.SyncAdChain", expected_SyncAdChain);
+   ("Subscriber.syncEntries", expected_syncEntries);
    ("handler.sendSyncFinishedEvent", expected_sendSyncFinishedEvent);
    ("Subscriber.getOrCreateHandler", expected_getOrCreateHandler);
    ("Subscriber.releaseHandler", expected_releaseHandler);
@@ -746,6 +804,41 @@ Definition of_interest : list string :=
 Definition balance_ok (gen : list (string * skel)) : bool :=
   forallb (fun n => let b := lookup_or_nil n gen in
                     balanced 300 b && forallb (balanced 300) (spawned b)) of_interest.
+
+(* every function that calls handler.handle takes the per-publisher sync lock (and no other
+   lock named ...Mutex of the handler) before the call: handle installs and removes the
+   publisher's scoped block hook and relies on being the only sync of that publisher *)
+Fixpoint flat_op (fuel : nat) (o : sop) {struct fuel} : list sop :=
+  match fuel with
+  | O => [o]
+  | S f =>
+    let many := flat_map (flat_op f) in
+    o :: match o with
+         | SGo b | SDefer b | SFor b | SFunc b | SOnce _ b => many b
+         | SIf _ a b => (many a ++ many b)%list
+         | SSelect _ cs | SSwitch cs => flat_map many cs
+         | _ => []
+         end
+  end.
+Definition flat (b : skel) : list sop := flat_map (flat_op 20) b.
+Definition is_sync_lock (o : sop) : bool :=
+  match o with
+  | SLock m => String.eqb m "h.syncMutex" || String.eqb m "hnd.syncMutex"
+  | _ => false
+  end.
+Definition is_call_handle (o : sop) : bool :=
+  match o with SCall n => String.eqb n "handle" | _ => false end.
+Fixpoint locked_before_handle (held : bool) (l : list sop) : bool :=
+  match l with
+  | [] => true
+  | o :: r =>
+    if is_call_handle o then held && locked_before_handle held r
+    else locked_before_handle (held || is_sync_lock o) r
+  end.
+Definition handle_callers_ok (gen : list (string * skel)) : bool :=
+  forallb (fun e => locked_before_handle false (flat (snd e))) gen &&
+  (* and there are such callers: SyncAdChain, syncEntries, asyncSyncAdChain *)
+  (3 <=? List.length (filter (fun e => existsb is_call_handle (flat (snd e))) gen))%nat.
 
 (* nothing blocks while s.handlersMutex is held (so getOrCreateHandler / releaseHandler /
    RemoveHandler / the cleaner are atomic steps of the model) *)
